@@ -798,10 +798,10 @@ func genSchedC14(c *ctx, emit func(string)) {
 		n++
 	}
 	// regression cases for the windows that were defects (see known_findings.json)
-	out("S0.S0", "G1,X", "0011111111000")                            // load | Close | acquire
-	out("S0.S0", "K,X", "011111111000")                              // Set.checked | Close | SetStable
-	out("S0.S0", "k,X", "011111111000")                              // Get.checked | Close | GetStable
-	out("S0.S0.S0", "G3,D1,X", "00011111111111112222222222000")      // reader of s0 | truncation -> s1 | Close retires s1
+	out("S0.S0", "G1,X", "0011111111000")                             // load | Close | acquire
+	out("S0.S0", "K,X", "011111111000")                               // Set.checked | Close | SetStable
+	out("S0.S0", "k,X", "011111111000")                               // Get.checked | Close | GetStable
+	out("S0.S0.S0", "G3,D1,X", "00011111111111112222222222000")       // reader of s0 | truncation -> s1 | Close retires s1
 	out("S0.S0.S0", "G3,X,S1", "00022222222222222233331111111111000") // same with a rotation
 	out("S0.S0", "F,G1,X", "00011122222220011")                       // stale zero observer | new reader | Close | observer swaps
 	ops := []string{"F", "L", "G1", "G2", "G9", "S0", "S1", "D1", "D2", "T1", "K", "k", "X"}
